@@ -33,6 +33,9 @@ POOL = {
     "POLY3": [((0, 0, 1, 1), (2, 0, 1, 1), (2, 2, 1, 1), (0, 2, 1, 1)), ((1, -2, 0, 1), (3, -2, 4, 1), (3, 0, 2, 1), (1, 0, -2, 1)), ((3, 0, 0, 1), (1, 2, 0, 1), (-1, 2, 2, 1), (1, 0, 2, 1))],
     "CUB": [((0, 0, 0), (2, 0, 0), (0, 1, 0), (0, 0, 3)), ((1, -1, 0), (2, -1, 0), (1, 1, 0), (1, -1, 2))],
     "NUM": [2, -3],
+    # objects defined by a centre point (whose representative can be rescaled) and radii
+    "CIRC": [((1, 2, 1), 3), ((0, 0, 1), 1), ((-4, 2, 2), 2), ((3, -1, 1), 0.5)],
+    "SPH": [((1, 2, 3, 1), 2), ((0, 0, 0, 1), 1), ((2, -4, 0, 2), 3)],
 }
 
 LAMBDAS = [-3, -2, -1, -0.5, 0.5, 2, 3]
@@ -42,7 +45,7 @@ LAMBDAS_THOROUGH = [-0.25, 0.25, 5, -5, 10, -10, 0.1, -0.1]  # still "moderate":
 
 def ncomponents(kind):
     """Number of separately scalable components of an object of this kind (rows of a polytope; 1 otherwise)."""
-    return {"SEG2": 2, "SEG3": 2, "POLY2": 4, "TRI2": 3, "POLY3": 4, "L3": 1, "CUB": 0, "NUM": 0}.get(kind, 1)
+    return {"SEG2": 2, "SEG3": 2, "POLY2": 4, "TRI2": 3, "POLY3": 4, "L3": 1, "CUB": 0, "NUM": 0, "CIRC": 1, "SPH": 1}.get(kind, 1)
 
 
 def build(G, kind, spec, dtype=float, scale=None):
@@ -78,6 +81,10 @@ def build(G, kind, spec, dtype=float, scale=None):
         return cls(*pts)
     if kind == "CUB":
         return G.Cuboid(*[G.Point(*v) for v in spec])
+    if kind == "CIRC":
+        return G.Circle(G.Point(A(spec[0]) * lam), spec[1])
+    if kind == "SPH":
+        return G.Sphere(G.Point(A(spec[0]) * lam), spec[1])
     raise KeyError(kind)
 
 
@@ -341,6 +348,44 @@ OPS += [
     Op("is_collinear(P,P,P,P,P)", ("P2",) * 5, lambda G, *p: G.is_collinear(*p), "bool", configs=[c + (c[0],) for c in COLLINEAR4] + [c + ((7, 1, 1),) for c in COLLINEAR4] + [c[:3] + ((5, 5, 1), c[3]) for c in COLLINEAR4]),
     Op("is_concurrent(L,L,L,L)", ("L2",) * 4, lambda G, a, b, c, d: G.is_concurrent(a, b, c, d), "bool", configs=CONCURRENT4 + [c[:3] + ((1, 1, 1),) for c in CONCURRENT4] + [((1, 0, 0), (0, 1, 0), (1, 2, 3), (1, 1, 0))]),
     Op("is_coplanar(P3 x5)", ("P3",) * 5, lambda G, *p: G.is_coplanar(*p), "bool", configs=[((0, 0, 0, 1), (1, 0, 0, 1), (0, 1, 0, 1), (1, 1, 0, 1), (3, -2, 0, 1)), ((0, 0, 0, 1), (1, 0, 0, 1), (0, 1, 0, 1), (1, 1, 0, 1), (3, -2, 1, 1)), ((0, 0, 0, 1), (1, 0, 0, 1), (0, 1, 0, 1), (1, 1, 1, 1), (2, 2, 0, 1)), ((1, 2, 3, 1), (2, 0, -1, 1), (0, 1, 1, 1), (3, 1, 0, 2), (0, 0, 0, 1))]),
+]
+
+OPS += [
+    # ---- circles and spheres built from a centre point and a radius
+    Op("CIRC.center", ("CIRC",), lambda G, c: c.center, "obj", coll=False),
+    Op("CIRC.radius", ("CIRC",), lambda G, c: c.radius, "num", coll=False),
+    Op("CIRC.area", ("CIRC",), lambda G, c: c.area, "num", coll=False),
+    Op("CIRC.foci", ("CIRC",), lambda G, c: list(c.foci), "objs", coll=False),
+    Op("CIRC.lie_coordinates", ("CIRC",), lambda G, c: c.lie_coordinates, "arr", coll=False),
+    Op("CIRC.intersection_angle(CIRC)", ("CIRC", "CIRC"), lambda G, a, b: a.intersection_angle(b), "num", coll=False, configs=[(((0, 0, 1), 5), ((6, 0, 1), 5)), (((1, 2, 1), 3), ((4, 2, 1), 3)), (((0, 0, 1), 1), ((1, 1, 1), 1))]),
+    Op("CIRC.contains(P)", ("CIRC", "P2"), lambda G, c, p: c.contains(p), "bool", coll=False, configs=[(((1, 2, 1), 3), (4, 2, 1)), (((1, 2, 1), 3), (1, 5, 1)), (((1, 2, 1), 3), (1, 2, 1)), (((-4, 2, 2), 2), (0, 1, 1)), (((-4, 2, 2), 2), (-2, 3, 1))]),
+    Op("CIRC.intersect(L)", ("CIRC", "L2"), lambda G, c, l: c.intersect(l), "objs", coll=False),
+    Op("CIRC.intersect(CIRC)", ("CIRC", "CIRC"), lambda G, a, b: a.intersect(b), "objs", coll=False, configs=[(((0, 0, 1), 5), ((6, 0, 1), 5)), (((1, 2, 1), 3), ((4, 2, 1), 3))]),
+    Op("CIRC.tangent(P)", ("CIRC", "P2"), lambda G, c, p: c.tangent(p), "obj", coll=False, configs=[(((1, 2, 1), 3), (4, 2, 1)), (((0, 0, 1), 1), (0, -1, 1)), (((-4, 2, 2), 2), (0, 1, 1))]),
+    Op("CIRC.dual", ("CIRC",), lambda G, c: c.dual, "obj", coll=False),
+    Op("T*CIRC", ("T2", "CIRC"), lambda G, t, c: t * c, "obj", coll=False),
+    Op("CIRC+P", ("CIRC", "P2"), lambda G, c, p: c + p, "obj", coll=False, configs=[(c, p) for c in POOL["CIRC"] for p in [(1, 2, 1), (3, -1, 2), (-2, 1, 1)]]),
+    Op("SPH.center", ("SPH",), lambda G, c: c.center, "obj", coll=False),
+    Op("SPH.radius", ("SPH",), lambda G, c: c.radius, "num", coll=False),
+    Op("SPH.volume", ("SPH",), lambda G, c: c.volume, "num", coll=False),
+    Op("SPH.area", ("SPH",), lambda G, c: c.area, "num", coll=False),
+    Op("SPH.contains(P3)", ("SPH", "P3"), lambda G, c, p: c.contains(p), "bool", coll=False, configs=[(((1, 2, 3, 1), 2), (3, 2, 3, 1)), (((1, 2, 3, 1), 2), (1, 2, 3, 1)), (((0, 0, 0, 1), 1), (0, 0, -1, 1)), (((2, -4, 0, 2), 3), (1, 1, 0, 1)), (((2, -4, 0, 2), 3), (1, 1, 1, 1))]),
+    Op("SPH.intersect(L3)", ("SPH", "L3"), lambda G, c, l: c.intersect(l), "objs", coll=False, nmax=8),
+    Op("SPH.tangent(P3)", ("SPH", "P3"), lambda G, c, p: c.tangent(p), "obj", coll=False, configs=[(((1, 2, 3, 1), 2), (3, 2, 3, 1)), (((0, 0, 0, 1), 1), (0, 0, -1, 1))]),
+    Op("SPH.dual", ("SPH",), lambda G, c: c.dual, "obj", coll=False),
+    Op("T3*SPH", ("T3", "SPH"), lambda G, t, c: t * c, "obj", coll=False),
+    Op("SPH+P3", ("SPH", "P3"), lambda G, c, p: c + p, "obj", coll=False, configs=[(c, p) for c in POOL["SPH"] for p in [(1, 2, 3, 1), (3, 1, 0, 2)]]),
+    # ---- further public members
+    Op("POLY.angles", ("POLY2",), lambda G, s: np.array([np.asarray(a) for a in s.angles]), "angle", coll=False),
+    Op("POLY.facets", ("POLY2",), lambda G, s: s.facets, "polys", coll=False, c03=False),
+    Op("SEG.vertices", ("SEG2",), lambda G, s: s.vertices, "objs", coll=False),
+    Op("P.join(P)", ("P2", "P2"), lambda G, a, b: a.join(b), "obj"),
+    Op("L.meet(L)", ("L2", "L2"), lambda G, a, b: a.meet(b), "obj"),
+    Op("L3.contravariant_tensor", ("L3",), lambda G, l: l.covariant_tensor.contravariant_tensor, "obj"),
+    Op("E.meet(E)", ("E3", "E3"), lambda G, a, b: a.meet(b), "obj"),
+    Op("P3.join(P3,P3)", ("P3",) * 3, lambda G, a, b, c: a.join(b, c), "obj", nmax=10),
+    Op("T.apply(P)", ("T2", "P2"), lambda G, t, p: t.apply(p), "obj"),
+    Op("Conic.from_crossratio", ("P2",) * 4, lambda G, a, b, c, d: G.Conic.from_crossratio(2.0, a, b, c, d), "obj", coll=False, configs=[f[:4] for f in FIVE_POINTS[:2]], c03=False),
 ]
 
 OP_BY_NAME = {o.name: o for o in OPS}
